@@ -356,6 +356,7 @@ type verifFE struct {
 	importRefs map[string]PkgRef
 	onExpr     func(e ast.Expr, el *Element) // called with every value expression built (C03)
 	unbalanced int                           // statements after which the operand stack length differed (C16)
+	lazyLabels bool                          // labels are created at their first mention instead of up front per body
 }
 
 func (fe *verifFE) lookup(name string) types.Object {
@@ -673,6 +674,9 @@ func (fe *verifFE) label(name string) *Label {
 
 // declare the labels of a function body up front (goto may precede the label)
 func (fe *verifFE) declareLabels(list []ast.Stmt) {
+	if fe.lazyLabels {
+		return
+	}
 	for _, s := range list {
 		ast.Inspect(s, func(n ast.Node) bool {
 			switch v := n.(type) {
